@@ -203,6 +203,13 @@ func genWrites(t *rapid.T, e elem, ns string) []write {
 				}
 			}
 		}
+		if (k == "reply-result" || k == "reply-error" || k == "otherid" || k == "message") && rapid.IntRange(0, 2).Draw(t, "addressed") == 0 {
+			// a fully addressed stanza: from, to and a language tag besides id and
+			// type, in any attribute order
+			node.Attr = append(node.Attr, xt.A("from", "test@example.net/r"), xt.A("to", "juliet@example.com/balcony"),
+				xml.Attr{Name: xml.Name{Space: "http://www.w3.org/XML/1998/namespace", Local: "lang"}, Value: "en"})
+			node.Attr = rapid.Permutation(node.Attr).Draw(t, "wattrorder")
+		}
 		w := write{kind: k, node: node}
 		if (k == "reply-result" || k == "reply-error" || k == "otherid" || k == "message") && rapid.IntRange(0, 2).Draw(t, "wvia") == 0 {
 			// a Go value marshaled by the handler instead of tokens
